@@ -134,7 +134,9 @@ theorem list_index_now_rejected :
 
 /-- what IS proved for the current code: the classification (any silently ignored construct is one of the listed ones,
 and every listed one is real), the range fragment (faithful for every form but `*n`; emit-parse fixed point).
-Not proved (tied per case to the real code by the harness instead): emit∘build = id on the whole Represented sub-grammar. -/
+The emit/parse round trip on the represented sub-grammar is proved in Props/C07Round.lean (`emit_build_fixed`, `emit_yield`,
+`faithful_partial`) for canonical derivations of well-formed models; the agreement of `build`/`emit` with the Go code is tied per
+case by the harness. -/
 def C07_partial : Prop :=
   ((C07Witness.frontier.map (fun p => ruleName p.2)).all C07Known.knownIgnored.contains = true ∧
     C07Known.knownIgnored.all (C07Witness.frontier.map (fun p => ruleName p.2)).contains = true) ∧
